@@ -36,7 +36,11 @@ pub mod util {
     pub(crate) fn eprint_err<E: VErr>(error_code: ErrorCode, msg: &str, err: &E)
         requires
             reportable(error_code), //@label eprint_err.perm.reportable C19
+        ensures reported(error_code),
     { unimplemented!() }
+    /// token fact (C19, "if" direction): a problem was handed to the error channel with this code - only eprint_err establishes it
+    /// (unit `errchan`: eprint_err serves the configured channel)
+    pub uninterp spec fn reported(code: ErrorCode) -> bool;
 }
 
 pub mod parameters {
@@ -563,6 +567,8 @@ pub mod state {
                 exists|s0: State, s1: State, rot_ok: bool| #![trigger State::mount_post(&s0, false, &s1, rot_ok)] {
                     &&& (if old.active() { s0 == *old } else { State::init_post(old, &s0) })
                     &&& State::mount_post(&s0, false, &s1, rot_ok)
+                    // C19: a rotation that could not be completed is reported (and the record still goes to the current file)
+                    &&& (!rot_ok ==> super::util::reported(ErrorCode::LogFile))
                     &&& State::append_post(&s1, buf, new, ok)
                 }
             }
@@ -573,6 +579,9 @@ pub mod state {
     //@   req[write_buffer.pre.arith] old(self).arith_ok(buf@.len() as int) && old(self).highest_ok()
     //@   req[write_buffer.pre.report] forall|c: ErrorCode| #[trigger] super::util::reportable(c) <==> c is LogFile
     //@   ens[write_buffer.post] State::write_post(old(self), buf@, final(self), r is Ok)
+    //@   closure ~eprint_err(ErrorCode::LogFile ## sig |e: FlexiLoggerError| -> (u: ())
+    //@   closure ~eprint_err(ErrorCode::LogFile ## req super::util::reportable(ErrorCode::LogFile)
+    //@   closure ~eprint_err(ErrorCode::LogFile ## ens super::util::reported(ErrorCode::LogFile)
     //@   canary
 
         /// C08 (F16): after a reopen the size account is the length of the file at the stored path — the file that is written
